@@ -10,6 +10,8 @@
 (*                   val = the value handed over), "ret", or "blocked"         *)
 (*   persist/persistcheque/emit   a gate was released (done = TRUE)            *)
 (*   arrive/released a thread that had been blocked showed up later            *)
+(*   refstart/refget a live refresh (TrafficInit) running as a goroutine of its *)
+(*                   own; it parks before each read of a persisted total        *)
 (*   restart         crash + New + Init on the surviving store (pre/post)      *)
 (*   reconnect / credit / pay     sequential calls after the restart           *)
 (*                                                                            *)
@@ -35,13 +37,14 @@ Ret(e) == e.arrived = "ret"
 RetOK(e) == Ret(e) /\ e.ret = ""
 AtPut(e) == e.arrived = "gate" /\ e.gate = "put"
 AtEmit(e) == e.arrived = "gate" /\ e.gate = "emit"
-ThreadEv(e) == e.op \in {"start", "paystart", "persist", "persistcheque", "emit", "arrive", "released"}
+ThreadEv(e) == e.op \in {"start", "paystart", "persist", "persistcheque", "emit", "arrive", "released", "refstart", "refget"}
 
 \* ------------------------------------------------------------------ bookkeeping
 InflAfter(e) ==
   IF ~ThreadEv(e) THEN infl
   ELSE LET cur == IF e.op = "start" THEN [kind |-> "upd", k |-> e.k, p |-> e.p, x |-> e.x, cum |-> 0]
                   ELSE IF e.op = "paystart" THEN [kind |-> "pay", k |-> "owed", p |-> e.p, x |-> 0, cum |-> 0]
+                  ELSE IF e.op = "refstart" THEN [kind |-> "refresh", k |-> "owed", p |-> e.p, x |-> 0, cum |-> 0]
                   ELSE infl[e.t]
            cur2 == IF cur.kind = "pay" /\ AtEmit(e) THEN [cur EXCEPT !.cum = e.val] ELSE cur
        IN [infl EXCEPT ![e.t] = IF Ret(e) THEN NoCall ELSE cur2]
@@ -49,6 +52,7 @@ InflAfter(e) ==
 \* the call of thread e.t as it was when the event happened
 CallOf(e) == IF e.op = "start" THEN [kind |-> "upd", k |-> e.k, p |-> e.p, x |-> e.x, cum |-> 0]
              ELSE IF e.op = "paystart" THEN [kind |-> "pay", k |-> "owed", p |-> e.p, x |-> 0, cum |-> 0]
+             ELSE IF e.op = "refstart" THEN [kind |-> "refresh", k |-> "owed", p |-> e.p, x |-> 0, cum |-> 0]
              ELSE infl[e.t]
 
 AckAfter(e) ==
@@ -95,6 +99,8 @@ Enabled(e, s) ==
     [] e.op = "persist"  -> e.done /\ UpdPersistOK(s, e.t)
     [] e.op = "emit"     -> e.done /\ PayEmitOK(s, e.t)
     [] e.op = "persistcheque" -> e.done /\ PayPersistOK(s, e.t)
+    [] e.op = "refstart" -> e.arrived = "gate" /\ e.gate = "get" /\ RefStartOK(s, e.t, e.p)
+    [] e.op = "refget"   -> e.done /\ (RefGet1OK(s, e.t) \/ RefGet2OK(s, e.t))
     [] e.op \in {"restart", "reconnect", "credit", "pay"} -> TRUE
     [] OTHER -> FALSE
 
@@ -105,6 +111,8 @@ Model(e, s) ==
          [] e.op = "persist"  -> UpdPersist(s, e.t)
          [] e.op = "emit"     -> PayEmit(s, e.t, e.ok)
          [] e.op = "persistcheque" -> PayPersist(s, e.t)
+         [] e.op = "refstart" -> RefStart(s, e.t, e.p)
+         [] e.op = "refget"   -> IF RefGet1OK(s, e.t) THEN RefGet1(s, e.t) ELSE RefGet2(s, e.t)
          [] e.op = "restart"  -> Restart(s)
          [] e.op = "reconnect" -> Reconnect(s, e.p)
          [] e.op = "credit"   -> Credit(s, "owed", e.p, e.x)
